@@ -1,14 +1,23 @@
 package c29
 
-// The server under attack (in this process: a panic in any of its goroutines
-// ends the process, which the journal attributes), the canary client and the
-// victim session whose ids the attackers aim at.
+// The server under attack runs in a child process of the test binary
+// (TestServerHost): a panic in any server goroutine ends that child, which the
+// parent observes directly and attributes to the case it is executing; work an
+// earlier case left behind in the server (goroutines, tickers, queues) is gone
+// as soon as the host is replaced, so it cannot disturb the timing of later
+// cases or of confirmation runs.
 
 import (
+	"bufio"
 	"context"
 	"fmt"
+	"io"
+	"os"
+	"os/exec"
 	"strings"
 	"sync"
+	"syscall"
+	"testing"
 	"time"
 
 	"github.com/gopcua/opcua"
@@ -18,14 +27,54 @@ import (
 	"verif/pkg/stack"
 )
 
+const hostEnv = "VERIF_C29_HOST"
+
+// TestServerHost is the child: it serves until its stdin is closed.
+func TestServerHost(t *testing.T) {
+	mode := os.Getenv(hostEnv)
+	if mode == "" {
+		t.Skip("only runs as the server host child of the C29 tests")
+	}
+	srv, err := stack.StartServer(stack.ServerOpts{})
+	if err != nil {
+		fmt.Printf("C29-HOST-FAILED %v\n", err)
+		return
+	}
+	srv.AddVariable("canary", int32(42))
+	for i := 0; i < 4; i++ {
+		srv.AddVariable(fmt.Sprintf("v%d", i), float64(i))
+	}
+	srv.AddVariable("text", "some text")
+	if strings.Contains(mode, "big") {
+		srv.AddVariable("big", strings.Repeat("x", 60000))
+	}
+	m := server.NewMapNamespace(srv.S, "urn:verif:map")
+	m.Mu.Lock()
+	m.Data["k1"] = int32(1)
+	m.Data["k2"] = "two"
+	m.Data["k3"] = 3.0
+	m.Mu.Unlock()
+	fmt.Printf("C29-HOST-READY %s\n", srv.URL)
+	os.Stdout.Sync()
+	// the parent holds the write end of stdin; when it goes away, so do we
+	io.Copy(io.Discard, os.Stdin)
+	os.Exit(0)
+}
+
 type envT struct {
-	srv    *stack.Server
+	cmd    *exec.Cmd
+	stdin  io.WriteCloser
+	url    string
 	addr   string
-	mapNS  *server.MapNamespace
 	canary *opcua.Client
 	node   *ua.NodeID // the variable the canary reads
 	cases  int
 	dirty  bool
+
+	exited chan struct{}
+	mu     sync.Mutex
+	stderr []string // last lines of the child's output (panic message, stack)
+	hist   []caseT  // every case executed on this host
 }
 
 var (
@@ -33,55 +82,128 @@ var (
 	env   *envT
 )
 
-const casesPerServer = 40
+const casesPerServer = 30
 
-func newEnv() (*envT, error) {
-	srv, err := stack.StartServer(stack.ServerOpts{})
+func newEnv(mode string) (*envT, error) {
+	if mode == "" {
+		mode = "1"
+	}
+	cmd := exec.Command(os.Args[0], "-test.run", "^TestServerHost$", "-test.v", "-test.timeout", "0")
+	cmd.Env = append(os.Environ(), hostEnv+"="+mode, "VERIF_PART_DIR=", "VERIF_JOURNAL_DIR=", "VERIF_REPLAY=", "GOTRACEBACK=all")
+	cmd.SysProcAttr = &syscall.SysProcAttr{Pdeathsig: syscall.SIGKILL}
+	stdin, err := cmd.StdinPipe()
 	if err != nil {
 		return nil, err
 	}
-	e := &envT{srv: srv, addr: strings.TrimPrefix(srv.URL, "opc.tcp://")}
-	srv.AddVariable("canary", int32(42))
-	for i := 0; i < 4; i++ {
-		srv.AddVariable(fmt.Sprintf("v%d", i), float64(i))
-	}
-	srv.AddVariable("text", "some text")
-	e.node = srv.NodeID("canary")
-	e.mapNS = server.NewMapNamespace(srv.S, "urn:verif:map")
-	e.mapNS.Mu.Lock()
-	e.mapNS.Data["k1"] = int32(1)
-	e.mapNS.Data["k2"] = "two"
-	e.mapNS.Data["k3"] = 3.0
-	e.mapNS.Mu.Unlock()
-	c, err := stack.Connect(srv.URL, opcua.SecurityMode(ua.MessageSecurityModeNone), opcua.RequestTimeout(10*time.Second), opcua.AutoReconnect(false))
+	out, err := cmd.StdoutPipe()
 	if err != nil {
-		srv.Close()
+		return nil, err
+	}
+	cmd.Stderr = cmd.Stdout
+	if err := cmd.Start(); err != nil {
+		return nil, err
+	}
+	e := &envT{cmd: cmd, stdin: stdin, exited: make(chan struct{}), node: ua.NewStringNodeID(nsTest, "canary")}
+	ready := make(chan string, 1)
+	go func() {
+		sc := bufio.NewScanner(out)
+		sc.Buffer(make([]byte, 1<<20), 1<<20)
+		for sc.Scan() {
+			line := sc.Text()
+			if strings.HasPrefix(line, "C29-HOST-READY ") {
+				ready <- strings.TrimPrefix(line, "C29-HOST-READY ")
+				continue
+			}
+			e.mu.Lock()
+			if len(e.stderr) < 4000 {
+				e.stderr = append(e.stderr, line)
+			}
+			e.mu.Unlock()
+		}
+		cmd.Wait()
+		close(e.exited)
+	}()
+	select {
+	case e.url = <-ready:
+	case <-e.exited:
+		return nil, fmt.Errorf("server host exited before it was ready: %s", e.crashText())
+	case <-time.After(60 * time.Second):
+		e.kill()
+		return nil, fmt.Errorf("server host not ready within 60 s")
+	}
+	e.addr = strings.TrimPrefix(e.url, "opc.tcp://")
+	c, err := stack.Connect(e.url, opcua.SecurityMode(ua.MessageSecurityModeNone), opcua.RequestTimeout(10*time.Second), opcua.AutoReconnect(false))
+	if err != nil {
+		e.kill()
 		return nil, fmt.Errorf("canary connect: %w", err)
 	}
 	e.canary = c
 	return e, nil
 }
 
+func (e *envT) kill() {
+	e.stdin.Close()
+	if e.cmd.Process != nil {
+		e.cmd.Process.Kill()
+	}
+}
+
 func (e *envT) close() {
-	// old servers are torn down in the background: Server.Close waits up to
-	// 10 s for connections the server never closes
 	go func() {
-		ctx, cancel := context.WithTimeout(context.Background(), 2*time.Second)
-		_ = e.canary.Close(ctx)
-		cancel()
-		e.srv.Close()
+		if e.canary != nil {
+			ctx, cancel := context.WithTimeout(context.Background(), time.Second)
+			_ = e.canary.Close(ctx)
+			cancel()
+		}
+		e.kill()
 	}()
+}
+
+// dead reports whether the server process has ended.
+func (e *envT) dead() bool {
+	select {
+	case <-e.exited:
+		return true
+	default:
+		return false
+	}
+}
+
+// crashText extracts the reason of the child's death from its output.
+func (e *envT) crashText() string {
+	e.mu.Lock()
+	defer e.mu.Unlock()
+	for i, l := range e.stderr {
+		if strings.HasPrefix(l, "panic:") || strings.HasPrefix(l, "fatal error:") {
+			out := l
+			// the first frames name the failure site
+			n := 0
+			for _, f := range e.stderr[i+1:] {
+				if strings.Contains(f, "gopcua/opcua/") && !strings.HasPrefix(f, "\t") {
+					out += " | " + strings.TrimSpace(f)
+					if n++; n >= 3 {
+						break
+					}
+				}
+			}
+			return out
+		}
+	}
+	if len(e.stderr) > 0 {
+		return "server process ended: " + e.stderr[len(e.stderr)-1]
+	}
+	return "server process ended without output"
 }
 
 func getEnv() (*envT, error) {
 	envMu.Lock()
 	defer envMu.Unlock()
-	if env != nil && (env.dirty || env.cases >= casesPerServer) {
+	if env != nil && (env.dirty || env.dead() || env.cases >= casesPerServer) {
 		env.close()
 		env = nil
 	}
 	if env == nil {
-		e, err := newEnv()
+		e, err := newEnv("")
 		if err != nil {
 			return nil, err
 		}
@@ -103,19 +225,23 @@ func (e *envT) canaryRead() (time.Duration, error) {
 	return time.Since(t0), err
 }
 
-// freshRead: a new client (TCP connect, HEL/ACK, OPN, one Read) must be served too.
+// freshRead: a new client (TCP connect, HEL/ACK, OPN, CreateSession, ActivateSession, one Read) must be served too.
 func (e *envT) freshRead() (time.Duration, error) {
 	t0 := time.Now()
 	done := make(chan error, 1)
 	go func() {
-		a, err := dialAtt(e.addr, e.srv.URL)
+		a, err := dialAtt(e.addr, e.url)
 		if err != nil {
 			done <- fmt.Errorf("connect: %w", err)
 			return
 		}
 		defer a.close(false)
+		if err := a.openSession(e.url); err != nil {
+			done <- err
+			return
+		}
 		v, err := a.call(&ua.ReadRequest{TimestampsToReturn: ua.TimestampsToReturnNeither,
-			NodesToRead: []*ua.ReadValueID{{NodeID: e.node, AttributeID: ua.AttributeIDValue, DataEncoding: &ua.QualifiedName{}}}}, nil, 3*time.Second)
+			NodesToRead: []*ua.ReadValueID{{NodeID: e.node, AttributeID: ua.AttributeIDValue, DataEncoding: &ua.QualifiedName{}}}}, a.token, 3*time.Second)
 		if err != nil {
 			done <- fmt.Errorf("read: %w", err)
 			return
